@@ -42,6 +42,10 @@ def sup_scenarios(rep, tier, seed):
                 rep.skip("non_finite_precomputed_matrix")
                 continue
             scns.append(scn)
+    # tiny / huge units and large common offsets (differences far below single-precision resolution), resubstitution
+    for scn in S.extreme_unit_scenarios(random.Random(seed * 1000003 + 407), 100 if thorough else 30, nq=0):
+        scn["Q"] = list(scn["I_train"])
+        scns.append(scn)
     # resubstitution after save -> load into an object built with another metric
     scns += S.reload_scenarios(random.Random(seed * 1000003 + 405), 120 if thorough else 32, resub=True)
     return scns
